@@ -15,10 +15,14 @@ import (
 )
 
 const (
-	RepoDir    = "/repo"
 	ModulePath = "github.com/go-netty/go-netty"
 	VrtPath    = ModulePath + "/internal/vrt"
 )
+
+// RepoDir is the tree that is checked: always /repo for the registered commands. GOSYM_DEV_REPO points the
+// debugging command `gosym run` at a scratch worktree while a check is busy with /repo (development only;
+// `gosym check` ignores it).
+var RepoDir = "/repo"
 
 type Loaded struct {
 	Prog     *ssa.Program
